@@ -38,7 +38,7 @@ META = dict(
                'scaling.TableScaling.scale', 'scaling.DaqMxScalerScaling.scale_daqmx', 'tdms.TdmsChannel._scale_data',
                'tdms.TdmsChannel.read_data', 'tdms.TdmsFile._read_file (property scoping)'],
     bounds=dict(quick='graphs of 1-3 scales over {Linear, Polynomial(3 coefficients), Add, Subtract}, wiring symbolic (raw or any '
-                      'earlier scale), all coefficients and raw value real and unbounded; arrays of 2 elements; files: 2 segments, '
+                      'other scale, earlier or later, acyclic), all coefficients and raw value real and unbounded; arrays of 2 elements; files: 2 segments, '
                       'int32/float64 raw data, Linear and Polynomial scale on channel/group/root x object order x eager/lazy',
                 thorough='graphs of up to 4 scales; more file shapes'),
     outside=['float rounding in the S3 part', 'np.interp kernel (stub)', 'sensor scale types (C17, C18)', 'deeper graphs'],
@@ -46,7 +46,7 @@ META = dict(
            'the tag matches'] + c04.META['stubs'],
     assumptions=['the documented formulas: Linear y = slope*x + intercept; Polynomial sum c_i x^i; Add left+right; Subtract right-left '
                  '(as the Excel TDMS plugin does)'] + c04.META['assumptions'],
-    buckets=dict(all=['graph', 'wiring-to-earlier-scale', 'wiring-to-raw', 'lookup-order', 'status-scaled', 'daqmx-scaler',
+    buckets=dict(all=['graph', 'wiring-to-earlier-scale', 'wiring-to-later-scale', 'wiring-to-raw', 'lookup-order', 'status-scaled', 'daqmx-scaler',
                       'elementwise', 'purity', 'file-scaled-window', 'file-group-scope', 'file-root-scope']),
     replays_per_signature=3,
     validate_samples=8,
@@ -94,10 +94,14 @@ class Raw:
         self.scaler_data = scaler_data or {}
 
 
-def _src(ctx, name, i):
-    """symbolic input source for scale i: raw data or any earlier scale"""
+def _src_any(ctx, name, i, n=None, pos=None):
+    """symbolic input source for scale i: the raw data or any other scale, earlier or later, as long as the wiring stays acyclic
+    (pos is a symbolic rank per scale: a scale reads only scales of smaller rank)"""
     v = ctx.int(name)
-    ctx.add(z3.Or(v.e == RAW, *[v.e == j for j in range(i)]))
+    if pos is None:
+        ctx.add(z3.Or(v.e == RAW, *[v.e == j for j in range(i)]))
+    else:
+        ctx.add(z3.Or(v.e == RAW, *[z3.And(v.e == j, pos[j] < pos[i]) for j in range(n) if j != i]))
     return v
 
 
@@ -112,6 +116,11 @@ def _graph(task, ctx):
     if task['declared']:
         props['NI_Number_Of_Scales'] = n
     spec = {}
+    pos = [z3.Int('rank%d' % i) for i in range(n)]
+    ctx.add(z3.And(*[z3.And(p_ >= 0, p_ < n) for p_ in pos]))
+
+    def _src(ctx, name, i):
+        return _src_any(ctx, name, i, n, pos)
     for i, t in enumerate(types):
         props['NI_Scale[%d]_Scale_Type' % i] = t
         if t == 'Linear':
@@ -148,31 +157,33 @@ def _graph(task, ctx):
     before = [raw[0], raw[1]]
     out = scaling.scale(Raw(raw))
 
-    def ev(srcv, xv, i):
+    def ev(srcv, xv, i, d):
         e = ex(srcv)
-        r = xv
-        for j in range(i - 1, -1, -1):
-            r = z3.If(e == j, ev_scale(j, xv), r)
+        r = xv                  # unreachable default: the wiring is acyclic, so depth n suffices
+        if d > 0:
+            for j in range(n - 1, -1, -1):
+                if j != i:
+                    r = z3.If(e == j, ev_scale(j, xv, d - 1), r)
         return z3.If(e == RAW, xv, r)
 
     memo = {}
 
-    def ev_scale(i, xv):
-        key = (i, xv.get_id())
+    def ev_scale(i, xv, d=n):
+        key = (i, xv.get_id(), d)
         if key in memo:
             return memo[key]
         s_ = spec[i]
         if s_[0] == 'lin':
-            r = ev(s_[3], xv, i) * s_[1] + s_[2]
+            r = ev(s_[3], xv, i, d) * s_[1] + s_[2]
         elif s_[0] == 'poly':
-            inp = ev(s_[2], xv, i)
+            inp = ev(s_[2], xv, i, d)
             r = s_[1][0] + s_[1][1] * inp + s_[1][2] * inp * inp
         elif s_[0] == 'noop':
-            r = ev(s_[1], xv, i)
+            r = ev(s_[1], xv, i, d)
         elif s_[0] == 'Add':
-            r = ev(s_[1], xv, i) + ev(s_[2], xv, i)
+            r = ev(s_[1], xv, i, d) + ev(s_[2], xv, i, d)
         else:
-            r = ev(s_[2], xv, i) - ev(s_[1], xv, i)
+            r = ev(s_[2], xv, i, d) - ev(s_[1], xv, i, d)
         memo[key] = r
         return r
 
@@ -198,6 +209,8 @@ def _graph(task, ctx):
     srcs = [v for s_ in spec.values() for v in s_[1:] if isinstance(v, SymInt)]
     if srcs and ctx.check(z3.Or(*[v.e != RAW for v in srcs])):
         ctx.note('wiring-to-earlier-scale')
+    if any(ctx.check(z3.And(v.e != RAW, v.e > i_)) for i_, s_ in spec.items() for v in s_[1:] if isinstance(v, SymInt)):
+        ctx.note('wiring-to-later-scale')
     ctx.note('wiring-to-raw')
 
 
@@ -389,7 +402,7 @@ def _daqmx(ctx):
     props = {'NI_Number_Of_Scales': 3}
     # scales 0 and 1 come from DAQmx raw scalers (no Scale_Type property); scale 2 combines them
     if which == 0:
-        src = _src(ctx, 'src', 2)
+        src = _src_any(ctx, 'src', 2)
         ctx.add(src.e != RAW)
         props.update({'NI_Scale[2]_Scale_Type': 'Linear', 'NI_Scale[2]_Linear_Slope': SymReal(s),
                       'NI_Scale[2]_Linear_Y_Intercept': SymReal(b), 'NI_Scale[2]_Linear_Input_Source': src})
